@@ -208,11 +208,16 @@ def discharge(premises, goal, timeout_ms=10000, hints=None):
         inst = instantiate(quant, ints2, strs2)
         ints, strs = ints2, strs2
     fs = base + inst + ord_axioms(strs, base + inst)
-    r, s, dt = check(fs, min(timeout_ms, 8000))
+    seq = uses_seq(fs)
+    r, s, dt = check(fs, min(timeout_ms, 2000 if seq else 8000))
     if r == z3.unsat:
         return dict(status="proved", stage=1, backend="z3", time_s=time.time() - t0, instances=len(inst))
+    if seq:
+        r1, out1, dt1 = cvc5_check(fs, timeout_ms)
+        if r1 == "unsat":
+            return dict(status="proved", stage=1, backend="cvc5", time_s=time.time() - t0, instances=len(inst))
     # stage 2: with quantifiers
-    left = max(1000, timeout_ms - int(1000 * (time.time() - t0)))
+    left = max(1000, min(timeout_ms, 5000 if seq else timeout_ms))
     r2, s2, dt2 = check(ground + quant + odd + [neg] + ord_axioms(strs, ground + [neg]), left)
     if r2 == z3.unsat:
         return dict(status="proved", stage=2, backend="z3", time_s=time.time() - t0)
